@@ -283,6 +283,13 @@ Proof.
     + unfold serving_st in E. destruct (r s); [reflexivity|discriminate].
     + rewrite write_gate by exact E. cbn [fst snd ores observe is_ok res_eqb negb andb].
       rewrite same_img_refl. destruct (r s); [reflexivity|apply unchanged_refl].
+  - (* write whose data write fails *)
+    cbn [step]. unfold with_rep. destruct (r s) as [x|] eqn:Hr.
+    + assert (Hi : forall l, listN_eqb l l = true)
+        by (induction l; cbn; [reflexivity|rewrite N.eqb_refl; assumption]).
+      destruct (rmode x) eqn:Hm; cbn [fst snd set_r]; unfold same_img, observe; cbn;
+        rewrite ?Hr, ?Hm; cbn; rewrite ?Hi, ?Z.eqb_refl; reflexivity.
+    + cbn [fst snd]. unfold same_img, observe; cbn. rewrite Hr. cbn. rewrite Z.eqb_refl. reflexivity.
   - rewrite is_open_obs. destruct (r s) eqn:Hr; [reflexivity|].
     rewrite closed_no_io by (auto; exact I). cbn. apply unchanged_refl.
   - rewrite mode_is_rw. destruct (is_rw s) eqn:E; [reflexivity|].
